@@ -353,6 +353,20 @@ func atIndexesByArg(c *Ctx, f *ssa.Function) bool {
 func rulesTagTable(c *Ctx, r *Report) {
 	wf := c.role("sam.tagToText")
 	rf := c.role("sam.parseTags")
+	if wf == nil {
+		// the per-tag formatting written out in the loop of the tag-list function
+		if tl := c.role("sam.tagsToText"); tl != nil {
+			nTA := 0
+			instrs(tl, func(in ssa.Instruction) {
+				if ta, ok := in.(*ssa.TypeAssert); ok && ta.CommaOk {
+					nTA++
+				}
+			})
+			if nTA >= 3 {
+				wf = tl
+			}
+		}
+	}
 	if wf == nil || rf == nil {
 		r.undecided("G2", "formats/sam", "anchor", "", "tagToText or parseTags not found")
 		return
@@ -399,6 +413,15 @@ func rulesTagTable(c *Ctx, r *Report) {
 						str, _ := constStr(cs.Val)
 						if len(str) == 3 && str[0] == ':' && str[2] == ':' {
 							e.letter = string(str[1])
+						}
+					}
+				case *ssa.BinOp:
+					// text = tag + ":X:" + … assigned in the arm instead of returned
+					if x.Op == token.ADD && e.letter == "" {
+						for _, o := range []ssa.Value{x.X, x.Y} {
+							if str, ok := constStr(o); ok && len(str) == 3 && str[0] == ':' && str[2] == ':' {
+								e.letter = string(str[1])
+							}
 						}
 					}
 				case *ssa.Call:
